@@ -33,12 +33,12 @@ ASSUMPTIONS = [
     "_create_odesys parameter_expressions are modelled for string-named rate constants only",
 ]
 
-QUICK = ["cfg_q", "sys_q", "full_q", "const_q", "mix_q", "hist_q"]
-THOROUGH = ["cfg_t", "comp_t", "sys_t", "sys3_t", "full_t", "orders_t", "const_t", "constw_t", "sym_t", "uk2_t", "feedmap_t", "hist_t"]
+QUICK = ["main_q", "feeds_q", "sys_q", "full_q"]
+THOROUGH = ["cfg_t", "comp_t", "sys_t", "sys3_t", "full_t", "orders_t", "const_t", "constw_t", "sym_t", "uk2_t", "feedmap_t", "hist_t", "forms_t"]
 # coverage (vacuity guard) is read on the smallest slice; it takes all four actions
 ACTIONS = {"full_q": ["OAdd", "OState", "OFeed", "GenBuild"], "full_t": ["OAdd", "OState", "OFeed", "GenBuild"]}
 
-FIELDS = ["names", "dep", "params", "poly", "f", "rvals", "B"]
+FIELDS = ["names", "dep", "params", "paramseq", "poly", "f", "rvals", "f2", "f_again", "rvals2", "frame", "B"]
 
 
 def _want(exp, field):
@@ -46,6 +46,8 @@ def _want(exp, field):
         return sorted(exp["params"])
     if field == "poly":
         return [kc.canon_poly(p) for p in exp["poly"]]
+    if field == "f_again":
+        return exp["f"]
     return exp[field]
 
 
@@ -154,23 +156,25 @@ def _trace_direction(ctx, n):
             continue
         traces.append(tr)
         meta.append((sysd, cfg, cin, obs))
-    verdicts = ctx.validate_traces("OdeBuildTrace", "OdeBuildTrace.cfg", traces)
-    for tr, (sysd, cfg, cin, obs), (v, pos, clause) in zip(traces, meta, verdicts):
-        if clause == "step:Build":
-            ctx.skip("configuration-outside-Accepted")   # not judged: C04 covers accepted configurations
-            continue
-        ctx.ran(cin, nontrivial=True)
-        if v == "accept":
-            continue
-        if clause.startswith("step:") or clause in ("notbuilt", "no-result-event"):
-            raise core.MachineryFailure("generated trace outside the model: %s at %d: %r" % (clause, pos, tr[pos - 1]))
-        err = obs["build"]["raise"] if kc.is_raise(obs["build"]) else "value"
-        ctx.violation(_key(cin, clause, err, "seeded"),
-                      {"direction": "code->spec", "trace": tr, "system": sysd, "cfg": cfg,
-                       "observed": tr[-1], "verdict": {"verdict": v, "pos": pos, "clause": clause},
-                       "tlc_cfg": "OdeBuildTrace.cfg"})
-    if traces:
-        ctx.sample({"trace": traces[0]}, cap=8)
+    def judge(verdicts):
+        for tr, (sysd, cfg, cin, obs), (v, pos, clause) in zip(traces, meta, verdicts):
+            if clause == "step:Build":
+                ctx.skip("configuration-outside-Accepted")   # not judged: C04 covers accepted configurations
+                continue
+            ctx.ran(cin, nontrivial=True)
+            if v == "accept":
+                continue
+            if clause.startswith("step:") or clause in ("notbuilt", "no-result-event"):
+                raise core.MachineryFailure("generated trace outside the model: %s at %d: %r" % (clause, pos, tr[pos - 1]))
+            err = obs["build"]["raise"] if kc.is_raise(obs["build"]) else "value"
+            ctx.violation(_key(cin, clause, err, "seeded"),
+                          {"direction": "code->spec", "trace": tr, "system": sysd, "cfg": cfg,
+                           "observed": tr[-1], "verdict": {"verdict": v, "pos": pos, "clause": clause},
+                           "tlc_cfg": "OdeBuildTrace.cfg"})
+        if traces:
+            ctx.sample({"trace": traces[0]}, cap=8)
+
+    return traces, judge
 
 
 def _suite_direction(ctx):
@@ -182,21 +186,21 @@ def _suite_direction(ctx):
             ctx.skip("suite-call-outside-model: " + r["skip"])
     ctx.counters["suite_get_odesys_calls"] = len(recs)
     ctx.counters["suite_get_odesys_calls_in_model"] = len(traces)
-    if not traces:
-        return
-    verdicts = ctx.validate_traces("OdeBuildTrace", "OdeBuildTrace.cfg", [r["trace"] for r in traces])
-    for r, (v, pos, clause) in zip(traces, verdicts):
-        if clause.startswith("step:") or clause in ("notbuilt", "no-result-event"):
-            ctx.skip("suite-call-outside-model: " + clause)
-            continue
-        ctx.ran({"suite": r["test"], "trace": r["trace"]}, nontrivial=True)
-        if v == "accept":
-            continue
-        cfg = r["trace"][-2]["cfg"]
-        ctx.violation(dict(fn="get_odesys", field=clause, error="value", incl=cfg["incl"], cstr=cfg["cstr"],
-                           kinds=",".join(cfg["kinds"]), subs=",".join(cfg["subs"]), comp=False, cls="suite"),
-                      {"direction": "code->spec", "trace": r["trace"], "test": r["test"], "observed": r["trace"][-1],
-                       "verdict": {"verdict": v, "pos": pos, "clause": clause}, "tlc_cfg": "OdeBuildTrace.cfg"})
+    def judge(verdicts):
+        for r, (v, pos, clause) in zip(traces, verdicts):
+            if clause.startswith("step:") or clause in ("notbuilt", "no-result-event"):
+                ctx.skip("suite-call-outside-model: " + clause)
+                continue
+            ctx.ran({"suite": r["test"], "trace": r["trace"]}, nontrivial=True)
+            if v == "accept":
+                continue
+            cfg = r["trace"][-2]["cfg"]
+            ctx.violation(dict(fn="get_odesys", field=clause, error="value", incl=cfg["incl"], cstr=cfg["cstr"],
+                               kinds=",".join(cfg["kinds"]), subs=",".join(cfg["subs"]), comp=False, cls="suite"),
+                          {"direction": "code->spec", "trace": r["trace"], "test": r["test"], "observed": r["trace"][-1],
+                           "verdict": {"verdict": v, "pos": pos, "clause": clause}, "tlc_cfg": "OdeBuildTrace.cfg"})
+
+    return [r["trace"] for r in traces], judge
 
 
 def _warm_up():
@@ -220,7 +224,7 @@ def run(ctx):
     slices = QUICK if ctx.quick else THOROUGH
     for sl in slices:
         res = ctx.tlc("OdeBuild_MC", "OdeBuild_MC_%s.cfg" % sl, require_actions=ACTIONS.get(sl, ()),
-                      require_cases=50, timeout=1500)
+                      require_cases=50, timeout=1500, workers=6 if ctx.quick else 16)
         outs = ctx.pmap(replay_case, res.cases)
         ctx.cases_replayed += len(res.cases)
         for case, (status, bad) in zip(res.cases, outs):
@@ -238,8 +242,12 @@ def run(ctx):
                         "params": c0["exp"]["params"], "poly": c0["exp"]["poly"]}, cap=8)
         ctx.counters["cases_" + sl] = len(res.cases)
     ctx.exhaustive = True
-    _trace_direction(ctx, 400 if ctx.quick else 8000)
-    _suite_direction(ctx)
+    # code -> spec: seeded systems and the calls of the repository's own tests, validated in one batch
+    t1, judge1 = _trace_direction(ctx, 300 if ctx.quick else 6000)
+    t2, judge2 = _suite_direction(ctx)
+    verdicts = ctx.validate_traces("OdeBuildTrace", "OdeBuildTrace.cfg", t1 + t2)
+    judge1(verdicts[:len(t1)])
+    judge2(verdicts[len(t1):])
 
 
 def replay(ctx, rec):
